@@ -83,7 +83,8 @@ structure MProp where
   setGlobalM : ∀ x v, P (Liquid.setGlobalM x v)
   setIndexM : ∀ x v, P (Liquid.setIndexM x v)
   capture : ∀ {m : M Unit}, P m → P (M.capture m)
-  inFrames : ∀ {α : Type} (ls : List Layer) {m : M α}, P m → P (M.inFrames ls m)
+  inPlain : ∀ {α : Type} (d : Obj) {m : M α}, P m → P (M.inFrames [.plain d] m)
+  inSandbox : ∀ {α : Type} (root : Obj) {m : M α}, P m → P (M.inFrames [.global [], .sandbox root {}] m)
 
 namespace MProp
 variable (Q : MProp)
@@ -139,7 +140,8 @@ macro_rules
     | exact MProp.takeInterruptM $Q
     | refine MProp.bind $Q ?_ (fun _ => ?_)
     | refine MProp.capture $Q ?_
-    | refine MProp.inFrames $Q _ ?_
+    | refine MProp.inPlain $Q _ ?_
+    | refine MProp.inSandbox $Q _ ?_
     | refine MProp.renderList $Q (fun _ => ?_) _
     | split
     | dsimp only)
@@ -149,7 +151,7 @@ variable (Q : MProp)
 
 theorem forStep (x : Str) (len : Nat) (parent : V) {body : M Unit} (hb : Q.P body) (v : V) (i : Nat) :
     Q.P (forStep x len parent body v i) :=
-  Q.inFrames _ (Q.bind hb (fun _ => Q.takeInterruptM))
+  Q.inPlain _ (Q.bind hb (fun _ => Q.takeInterruptM))
 
 theorem tablerowStep (x : Str) (len ncols : Nat) {body : M Unit} (hb : Q.P body) (v : V) (i : Nat) :
     Q.P (tablerowStep x len ncols body v i) := by
@@ -158,7 +160,7 @@ theorem tablerowStep (x : Str) (len ncols : Nat) {body : M Unit} (hb : Q.P body)
 
 theorem renderForStep (st : Stack) (args : List (Str × Expr)) (as_ : Str) (len : Nat) {body : M Unit}
     (hb : Q.P body) (v : V) (i : Nat) : Q.P (renderForStep st args as_ len body v i) :=
-  Q.bind (Q.lift _) (fun _ => Q.inFrames _ (Q.bind hb (fun _ => Q.takeInterruptM)))
+  Q.bind (Q.lift _) (fun _ => Q.inSandbox _ (Q.bind hb (fun _ => Q.takeInterruptM)))
 
 theorem loopItems_forStep (x : Str) (len : Nat) (parent : V) {body : M Unit} (hb : Q.P body)
     (items : List V) (i : Nat) : Q.P (Liquid.loopItems (Liquid.forStep x len parent body) items i) :=
@@ -228,8 +230,10 @@ structure StepRel where
   setRegs : ∀ rt g, R rt (rt.setRegs g)
   setGlobal : ∀ rt k v ls, rt.layers.setGlobal k v = .ok ls → R rt { rt with layers := ls }
   setIndex : ∀ rt k v ls, rt.layers.setIndex k v = .ok ls → R rt { rt with layers := ls }
-  frames : ∀ (ls : List Layer) rt rt', R { rt with layers := ls ++ rt.layers } rt' →
-    R rt { rt' with layers := rt'.layers.drop ls.length }
+  framePlain : ∀ (d : Obj) rt rt', R { rt with layers := .plain d :: rt.layers } rt' →
+    R rt { rt' with layers := rt'.layers.drop 1 }
+  frameSandbox : ∀ (root : Obj) rt rt', R { rt with layers := .global [] :: .sandbox root {} :: rt.layers } rt' →
+    R rt { rt' with layers := rt'.layers.drop 2 }
 
 /-- `m` relates every start state to the state it ends in (whatever the outcome and the sink). -/
 def Pres (S : StepRel) {α} (m : M α) : Prop := ∀ rt w, S.R rt (m rt w).2.1
@@ -273,13 +277,20 @@ def StepRel.toMProp (S : StepRel) : MProp where
     rcases hr : m rt {} with ⟨r, rt', cw⟩
     rw [hr] at h
     cases r <;> exact h
-  inFrames := by
-    intro α ls m hm rt w
-    have h := hm { rt with layers := ls ++ rt.layers } w
+  inPlain := by
+    intro α d m hm rt w
+    have h := hm { rt with layers := [Layer.plain d] ++ rt.layers } w
     unfold M.inFrames
-    rcases hr : m { rt with layers := ls ++ rt.layers } w with ⟨r, rt', w'⟩
+    rcases hr : m { rt with layers := [Layer.plain d] ++ rt.layers } w with ⟨r, rt', w'⟩
     rw [hr] at h
-    exact S.frames ls rt rt' h
+    exact S.framePlain d rt rt' h
+  inSandbox := by
+    intro α root m hm rt w
+    have h := hm { rt with layers := [Layer.global [], Layer.sandbox root {}] ++ rt.layers } w
+    unfold M.inFrames
+    rcases hr : m { rt with layers := [Layer.global [], Layer.sandbox root {}] ++ rt.layers } w with ⟨r, rt', w'⟩
+    rw [hr] at h
+    exact S.frameSandbox root rt rt' h
 
 /-- **Every render step respects `S`.** -/
 theorem Pres.renderN (S : StepRel) (env : Env) (fuel : Nat) (n : Node) : Pres S (renderN fuel env n) :=
